@@ -331,7 +331,7 @@ impl Prop for C01 {
     fn fuzz(t: Tier) -> Option<FuzzSpec> {
         match t {
             Tier::Quick => None,
-            Tier::Thorough => Some(FuzzSpec { target: "c01_roundtrip", runs: 2_000_000, max_len: 4096 }),
+            Tier::Thorough => Some(FuzzSpec { target: "c01_roundtrip", runs: 400_000, max_len: 4096 }),
         }
     }
 }
